@@ -29,7 +29,7 @@ def build_case(rng, quick):
     shape = rng.choice([(), (), (2,), (3,), (2, 2)])
     if kind == 'cov' and shape == (2, 2):
         shape = (2,)
-    family = rng.choice(['int', 'dyadic', 'tied', 'mixed', 'narrowint'] + (['nearmax'] if kind in ('min', 'max', 'mean', 'counter') else []))
+    family = rng.choice(['int', 'dyadic', 'tied', 'mixed', 'narrowint', 'offset'] + (['nearmax'] if kind in ('min', 'max', 'mean', 'counter') else ['offset', 'offset']))
     m = rng.randint(1, 6)
     sizes = [rng.choice([0, 0, 1, 1, 2, 3, 5, 8]) for _ in range(m)]
     chunks = [c05.gen_values(rng, k, shape, family) for k in sizes]
@@ -76,6 +76,8 @@ def scale_of(case):
     if case['kind'] == 'counter' or not vals:
         return Fraction(1)
     mx = max([abs(x) for v in vals for x in acclib.flat(v)[1]] + [Fraction(1)])
+    if case.get('family') == 'offset' and case['kind'] in ('var', 'cov'):
+        return c05.spread_scale(case['kind'], [acclib.flat(v)[1] for v in vals], mx * mx)
     return mx * mx if case['kind'] in ('var', 'cov') else mx
 
 
